@@ -521,7 +521,12 @@ impl SignatureConfig {
                     // in error.
                     //
                     // (See https://www.rfc-editor.org/rfc/rfc9580.html#section-5.2.3.7-6)
-                    if packet.is_critical && matches!(packet.typ(), SubpacketType::Other(_)) {
+                    if packet.is_critical
+                        && matches!(
+                            packet.typ(),
+                            SubpacketType::Other(_) | SubpacketType::Experimental(_)
+                        )
+                    {
                         // "[..] The purpose of the critical bit is to allow the signer to tell an
                         // evaluator that it would prefer a new, unknown feature to generate an
                         // error rather than being ignored."
